@@ -347,6 +347,29 @@ func genC18(r *RNG, tier string) []Case {
 			}
 		}
 		addPair(a, b, "random")
+		if len(a) > 0 {
+			// "sets obtained from canonical text": the text of a is parsed by the real parser; the result must be the
+			// set the text denotes, print back to the same text, and answer membership like the directly built set
+			as, txt := a, canonSetText(a)
+			cs = append(cs, gtidCase("g56 op=parse_set s="+hx([]byte(txt)), "from-canonical-text", true, func(resp map[string]string) Outcome {
+				impl := catch(func() string {
+					x, _, err := replication.VerifParseGTIDSet("MySQL56", txt)
+					if err != nil {
+						return "err"
+					}
+					p := x.(replication.Mysql56GTIDSet)
+					if p.String() != txt || !p.Equal(as.impl()) || !as.impl().Equal(p) {
+						return "ok-but-differs:" + showImplSet(p)
+					}
+					return "ok:" + showImplSet(p)
+				})
+				o := Outcome{Impl: impl, Model: resp["model"], CorrOK: impl == resp["model"], OracleOK: impl == "ok:"+as.abs()}
+				if !o.OracleOK {
+					o.Note, o.FindingKey = "parsing MySQL's canonical text does not give the set it denotes", "from-canonical-text"
+				}
+				return o
+			}))
+		}
 		sid := sidPool[r.Intn(len(sidPool))]
 		seq := int64(r.Range(1, 12))
 		if i%2 == 0 && len(a[sid]) > 0 {
